@@ -293,14 +293,15 @@ class System:
         for x in xs:
             self.engine.receiver.add_data(x)
 
-    def run_main_pass(self, payload):
+    def run_main_pass(self, payload, put=True):
         """the real `run()` loop: one incoming message, then the loop ends (closed flag set by a stub subscriber)."""
         d = self.dist
         d._closed = False
         d._running = False
         if self._closer not in d._subscribers:
             d._subscribers.append(self._closer)
-        d._queue_incoming.put_nowait(d._incoming_from_json(payload))
+        if put:
+            d._queue_incoming.put_nowait(d._incoming_from_json(payload))
         try:
             d.run()
         finally:
@@ -890,10 +891,125 @@ def run(ctx: Ctx) -> Result:
             res.notes.append(f"F6 schedule (engine update overlapping an incoming remote change) forced on real "
                              f"threads: {r['result']}, pause points reached {r['reached_pause']}")
 
+    # ---- bounded queues at capacity: no role waits for room while holding what the draining role needs
+    for r in full_queue_liveness(payloads):
+        res.add_case({'full_queue': r['scenario']})
+        res.count('full_queue_' + r['result'])
+        if r['result'] == 'deadlock':
+            res.violations.append(Violation(
+                'queue-wait-deadlock:' + r['scenario'],
+                f"{r['scenario']}: with the queue at capacity the feeding role and {len(r['alive']) - 1} other role(s) are still "
+                f"blocked after 3 s (threads alive: {r['alive']}; waiting for locks: {r['blocked_on_lock']}): the producer waits "
+                f"for room in the queue while holding a lock the draining role needs",
+                {'scenario': r['scenario'], 'queue_size': 1, 'alive': r['alive'], 'blocked_on_lock': r['blocked_on_lock']}))
+        elif r['result'] != 'completed':
+            res.disagreements.append({'full-queue-scenario-did-not-finish': r})
+        else:
+            res.notes.append(f"full-queue scenario {r['scenario']}: all roles finished ({r['errors'] or 'no errors'})")
+
     # ---- concurrent smoke run on real threads (thorough): all roles at once, must make progress and end
     if ctx.thorough:
         stress(ctx, res, payloads)
     return res
+
+
+# --------------------------------------------------------------------------
+# bounded queues at capacity: a producer must not wait for room while it holds what the consumer needs
+# --------------------------------------------------------------------------
+
+def full_queue_scenarios():
+    """(name, bound(s) -> None, producer op, other roles' ops).  Each bounded queue of the distributed component is brought
+    to capacity (size 1); the role that feeds it runs its entry point while the roles that drain it, or that need the
+    locks the producer holds, run theirs (several passes, so a consumer that is free to run does make room)."""
+    from queue import Queue
+
+    def bound_outgoing(s):
+        s.dist._queue_outgoing = Queue(maxsize=1)
+        s.feed(1)
+        s.engine.update()                       # one local change queued: the outgoing queue is full
+
+    def engine_change(s, p):
+        s.feed(2)
+        s.engine.update()                       # a second local change: on_decider_update finds the queue full
+
+    def outgoing_passes(s, p):
+        for _ in range(4):                      # RESYNC first (snapshot: decider lock), then SYNC passes that drain the queue
+            s.outgoing_pass()
+            s.now += 1
+
+    def main_pass(s, p):
+        s.run_main_pass(p['updated'])
+
+    def bound_incoming(s):
+        s.dist._queue_incoming = Queue(maxsize=1)
+        s.dist._queue_incoming.put_nowait(s.dist._incoming_from_json(make_payloads_cache['updated']))
+
+    def incoming_sync(s, p):
+        s.incoming_client(1, 0, p['updated'])   # a SYNC arrives while the incoming queue is full
+
+    return [
+        ('outgoing-queue-full', bound_outgoing, ('engine', engine_change),
+         [('dist_outgoing', outgoing_passes), ('dist_main', main_pass)]),
+        ('incoming-queue-full', bound_incoming, ('dist_incoming', incoming_sync),
+         [('dist_main', lambda s, p: s.run_main_pass(None, put=False)), ('engine', engine_change)]),
+    ]
+
+
+make_payloads_cache = {}
+
+
+def full_queue_liveness(payloads, wait_s=3.0):
+    """run every scenario on real threads; a scenario in which the producer AND another role are still blocked after
+    `wait_s` (each operation takes milliseconds) is a deadlock through a queue wait.  Returns a list of result dicts."""
+    make_payloads_cache.update(payloads)
+    out = []
+    for name, bound, (prole, pop), others in full_queue_scenarios():
+        rec = Recorder()
+        rec.timeout = wait_s + 2.0
+        s = fresh(rec, VARIANTS[0])
+        errors = {}
+        try:
+            with rec.as_role('engine', name + ':prep'):
+                bound(s)
+        except Exception as e:   # noqa
+            out.append({'scenario': name, 'result': 'could-not-prepare', 'error': f"{e.__class__.__name__}: {e}"})
+            continue
+
+        def runner(role, op, key):
+            def go():
+                try:
+                    with rec.as_role(role, name + ':' + key):
+                        op(s, payloads)
+                except LockTimeout as e:
+                    errors[key] = 'LockTimeout: ' + str(e)
+                except Exception as e:   # noqa  a loud error (queue full) is the documented behaviour
+                    errors[key] = f"{e.__class__.__name__}: {e}"
+            return go
+        threads = [('producer:' + prole, threading.Thread(target=runner(prole, pop, 'producer'), daemon=True))]
+        for i, (role, op) in enumerate(others):
+            threads.append((f'other{i}:{role}', threading.Thread(target=runner(role, op, f'other{i}'), daemon=True)))
+        threads[0][1].start()
+        time.sleep(0.3)
+        for _, t in threads[1:]:
+            t.start()
+        deadline = time.monotonic() + wait_s
+        for _, t in threads:
+            t.join(max(0.0, deadline - time.monotonic()))
+        alive = [n for n, t in threads if t.is_alive()]
+        blocked = {}
+        for n, t in threads:
+            b = rec.blocked.get(t.ident)
+            if b is not None:
+                blocked[n] = b[0].name()
+        result = 'completed'
+        if alive and alive[0].startswith('producer') and len(alive) >= 2:
+            result = 'deadlock'
+        elif alive:
+            result = 'still-running'
+        out.append({'scenario': name, 'result': result, 'alive': alive, 'blocked_on_lock': blocked,
+                    'errors': {k: v[:160] for k, v in errors.items()}})
+    return out
+
 
 
 def sig_of(cycle):
@@ -1008,8 +1124,9 @@ SPEC = PropSpec(
         'subscribers — listed with their source locations in Gen/Locks.lean) do not take bobocep locks',
         'one BoboEngine and one BoboDistributedTCP per set of tasks (the wiring of BoboSetupSimple[Distributed].generate)',
         'threading.RLock is a re-entrant mutex; queue.Queue and logging use internal leaf locks only',
-        'non-lock blocking operations (Queue.put, pool.join, Thread.join, socket calls) are argued case by case in the '
-        'evidence notes, not by the theorem',
+        'queue operations: the generated table `queueWaits` (blocking put outside a `not full()` guard, blocking get) is '
+        'proved empty (`no_queue_waits`) and full-queue scenarios are forced on real threads; pool.join / Thread.join / '
+        'socket calls are argued case by case in the evidence notes, not by the theorem',
     ],
     model_covers='re-entrant lock semantics (owner + count), arbitrary interleavings of any number of threads over any '
                  'number of lock instances; the lock-acquisition table of bobocep (all `with self.<lock>` nestings through '
